@@ -187,6 +187,7 @@ def run(rep, kf, tier, seed):
     cu.build(reg)
     engine_a.discharge(rep, kf, reg, "C05", tier, seed)
     ta.safe_docstring_obligations(rep, "C05")
+    ta.handwritten_docstring_obligation(rep, "C05")
     site_obligations(rep, kf)
     import contracts.dispatch as cd
     cd.discharge(rep, kf, "C05", tier, seed)
